@@ -160,6 +160,18 @@ class C05(Prop):
                     if ctx.returns(c, "C05.to_cfg.contains", text=text, word=w) and c.value is not want.accepts(w):
                         ctx.fail("C05.to_cfg.contains", text=text, word=w, got=c.value, want=want.accepts(w))
                         break
+            # a starting symbol named like the variables to_cfg invents for sub-expressions
+            for start in ("A0", "A1"):
+                g = ctx.call(regex.to_cfg, start)
+                if ctx.returns(g, "C05.to_cfg", text=text, starting_symbol=start):
+                    x = ctx.call(O.extract_cfg, g.value)
+                    if ctx.returns(x, "C05.to_cfg.extract", text=text, starting_symbol=start):
+                        syms = sorted(RX.symbols(ast))
+                        got = x.value.lang_upto(3)
+                        wantl = want.words_upto(3, syms)
+                        if got != wantl:
+                            ctx.fail("C05.to_cfg.lang", text=text, starting_symbol=start, missing=sorted(wantl - got)[:3],
+                                     extra=sorted(got - wantl)[:3])
             # str() re-parses to an equivalent regex
             s = ctx.call(str, regex)
             if ctx.returns(s, "C05.str", text=text):
